@@ -120,6 +120,27 @@ Proof.
   pose proof (Z_of_byte_range b3). pose proof (Z_of_byte_range b4). pose proof (Z_of_byte_range b5). lia.
 Qed.
 
+Lemma Z_of_byte_of_Z : forall z, Z_of_byte (byte_of_Z z) = z mod 256.
+Proof.
+  intro z. unfold Z_of_byte, byte_of_Z.
+  assert (B : (Z.to_N (z mod 256) <= 255)%N) by (pose proof (Z.mod_pos_bound z 256); lia).
+  pose proof (Byte.to_of_N_option_map (Z.to_N (z mod 256))) as M.
+  apply N.leb_le in B. rewrite B in M.
+  destruct (Byte.of_N (Z.to_N (z mod 256))) as [b|]; cbn [option_map] in M; [|discriminate].
+  inversion M as [M']. rewrite M'. pose proof (Z.mod_pos_bound z 256). lia.
+Qed.
+
+Definition params_in_range (k : kparams) : Prop :=
+  0 <= k_N k <= 65535 /\ 0 <= k_r k <= 255 /\ 0 <= k_p k <= 255 /\ 0 <= k_sl k <= 255 /\ 0 <= k_len k <= 255.
+
+(* struct.unpack inverts struct.pack on values that fit the format ">HBBBB" *)
+Lemma unpack_pack : forall k, params_in_range k -> unpack_params (pack_params k) = Ok k.
+Proof.
+  intros [N r p sl ln] H. unfold params_in_range in H. cbn [k_N k_r k_p k_sl k_len] in H.
+  unfold pack_params, unpack_params. cbn [k_N k_r k_p k_sl k_len]. rewrite !Z_of_byte_of_Z.
+  f_equal. f_equal; lia.
+Qed.
+
 Lemma lit_no_colon : ~ In colon lit_scrypt /\ ~ In colon lit_1.
 Proof. split; intro H; cbv in H; repeat (destruct H as [H|H]; [discriminate H|]); exact H. Qed.
 
